@@ -4689,7 +4689,8 @@ impl<'a> Parser<'a> {
             }
 
             // Check for index signature: [key: type]: valueType
-            if self.check(&TokenKind::LBracket) {
+            // (otherwise `[` starts a computed name: [Symbol.iterator](): T, ["a"]: T)
+            if self.check(&TokenKind::LBracket) && self.bracket_starts_index_signature() {
                 self.advance(); // consume [
                 let key = self.parse_identifier()?;
                 self.require_token(&TokenKind::Colon)?;
@@ -4707,7 +4708,7 @@ impl<'a> Parser<'a> {
                     span,
                 }));
             } else {
-                let key = self.parse_property_name()?;
+                let (key, _computed) = self.parse_class_element_name()?;
                 let optional = self.match_token(&TokenKind::Question);
 
                 if self.check(&TokenKind::LParen) || self.check(&TokenKind::Lt) {
@@ -4750,6 +4751,15 @@ impl<'a> Parser<'a> {
         }
 
         Ok(members)
+    }
+
+    /// At `[` in a type member list: `[name: ...` is an index signature
+    fn bracket_starts_index_signature(&mut self) -> bool {
+        let checkpoint = self.lexer.checkpoint();
+        let is_name = matches!(self.lexer.next_token().kind, TokenKind::Identifier(_));
+        let is_index = is_name && self.lexer.next_token().kind == TokenKind::Colon;
+        self.lexer.restore(checkpoint);
+        is_index
     }
 
     /// At a word that may be a modifier or the member's own name: does the next token end a
